@@ -91,8 +91,6 @@ func checkSeed(msgs []memio.Msg, s *session) ot.Label {
 	return bound
 }
 
-// (false)? The derivation is public (an attacker knows the code); the harness learns it from the implementation's
-// behaviour: the adaptive alteration of a Delta-selected column is accepted exactly under the right derivation.
 var (
 	bindMode     = "all"
 	bindingKnown bool
